@@ -33,7 +33,11 @@ impl Completion for RecCompletion {
     fn complete<P: Props>(&self, span: Span<P>) {
         self.calls.set(self.calls.get() + 1);
         self.name0.set(span.name().get().as_bytes()[0]);
-        self.mdl0.set(span.mdl().segments().next().map(|s| s.get().as_bytes()[0]).unwrap_or(0));
+        let mut i = 0;
+        while i < 3 {
+            if *span.mdl() == *MDLS[i] { self.mdl0.set(MDLS[i].as_bytes()[0]); }
+            i += 1;
+        }
         self.prop_a.set(span.props().pull::<i32, _>("a").unwrap_or(-1));
         if let Some(x) = span.extent() {
             self.has_extent.set(true);
@@ -133,17 +137,23 @@ fn op_sequence(nops_max: usize) {
 }
 
 #[kani::proof]
-#[kani::unwind(5)]
+#[kani::unwind(13)]
+#[kani::stub(emit::span::TraceId::try_from_hex, trace_hex_unreachable)]
+#[kani::stub(emit::span::SpanId::try_from_hex, span_hex_unreachable)]
 pub fn c05_q_guard_ops3() { op_sequence(3); }
 
 #[kani::proof]
-#[kani::unwind(6)]
+#[kani::unwind(13)]
+#[kani::stub(emit::span::TraceId::try_from_hex, trace_hex_unreachable)]
+#[kani::stub(emit::span::SpanId::try_from_hex, span_hex_unreachable)]
 pub fn c05_t_guard_ops4() { op_sequence(4); }
 
 /// The default completion emits exactly one span event carrying the span's ids when completed
 /// inside its frame (ambient context), its name as template, kind span, and the level if configured.
 #[kani::proof]
-#[kani::unwind(8)]
+#[kani::unwind(13)]
+#[kani::stub(emit::span::TraceId::try_from_hex, trace_hex_unreachable)]
+#[kani::stub(emit::span::SpanId::try_from_hex, span_hex_unreachable)]
 pub fn c05_q_default_completion_event() {
     let verdict: bool = kani::any();
     let ctxt = ArrCtxt::new();
@@ -177,7 +187,9 @@ pub fn c05_q_default_completion_event() {
 }
 
 #[kani::proof]
-#[kani::unwind(5)]
+#[kani::unwind(13)]
+#[kani::stub(emit::span::TraceId::try_from_hex, trace_hex_unreachable)]
+#[kani::stub(emit::span::SpanId::try_from_hex, span_hex_unreachable)]
 pub fn c05_w_twin_disabled_never_started_completes() {
     // false claim: every guard completes once when dropped
     let verdict: bool = kani::any();
